@@ -1,6 +1,6 @@
 SPECIFICATION Spec
 CONSTANTS
   OneByte = 256
-  Pinned = TRUE
+  Pinned = FALSE
 INVARIANT Report
 CHECK_DEADLOCK FALSE
